@@ -54,6 +54,8 @@ RelRoot == <<114,111,111,116,46,106,115,111,110>>     \* root.json
 RelDefs == <<100,101,102,115,46,106,115,111,110>>     \* defs.json
 UUrn    == <<117,114,110,58,101,120,97,109,112,108,101,58,114,111,111,116>>   \* urn:example:root
 UOther  == <<104,116,116,112,58,47,47,120,46,105,110,118,97,108,105,100,47,111,116,104,101,114,46,106,115,111,110>>  \* http://x.invalid/other.json
+UAlt == <<104,116,116,112,58,47,47,120,46,105,110,118,97,108,105,100,47,97,47,98,46,106,115,111,110>>   \* http://x.invalid/a/b.json
+UAltDefs == <<104,116,116,112,58,47,47,120,46,105,110,118,97,108,105,100,47,97,47,100,101,102,115,46,106,115,111,110>>   \* http://x.invalid/a/defs.json
 K_t == <<116, 116>>
 K_chain == <<99,104,97,105,110>>
 K_xdefs == <<120,45,100,101,102,115>>
@@ -121,9 +123,19 @@ Scenario ==
     \* the empty reference (the document itself, like "#") with sibling keywords, which are ignored next to $ref
     [] arr = "emptyref"   -> [S |-> SetAt(T, pos, 1, WithLast(Never(D), K_d_ref, Str(<<>>))), more |-> <<>>]
     [] arr = "urn"        -> [S |-> WithFirst(WithLast(TRef(DefRef(n)), K_definitions, Defs(n)), IdKw(D), Str(UUrn)), more |-> <<>>]
+    \* ONE relative reference text under TWO bases: below a first nested id it designates an empty definition of another
+    \* document, below the second the extracted subschema. What a reference designates is a function of (base in force,
+    \* reference text), never of the reference text (or of the object that carries it) alone. The harness presents the
+    \* two equal {"$ref": ...} objects as one shared Python object.
+    [] arr = "twobases"   -> [S |-> JObj(<<IdKw(D)>> \o Wrapper(EmptyObj).k,
+                                         <<Str(URoot),
+                                           Arr(<<JObj(<<IdKw(D)>> \o Wrapper(EmptyObj).k, <<Str(UAlt), Arr(<<RefObj(RelDefs \o DefRef(n))>>)>>),
+                                                 WithFirst(TRef(RelDefs \o DefRef(n)), IdKw(D), Str(UNested))>>)>>),
+                              more |-> <<[u |-> UAltDefs, doc |-> Obj1(K_definitions, Obj1(n, EmptyObj))],
+                                         [u |-> UNestedDefs, doc |-> Obj1(K_definitions, Defs(n))]>>]
 
 AllArrs == {"local", "rootid", "rootidhash", "absref", "relid", "storeabs", "storerel", "storeownid", "chain",
-            "arrayelem", "nestedabs", "nestedrel", "mixed", "otherid", "recursive", "shadow", "pctsep", "claimed", "emptyref", "urn"}
+            "arrayelem", "nestedabs", "nestedrel", "mixed", "otherid", "recursive", "shadow", "pctsep", "claimed", "emptyref", "urn", "twobases"}
 
 QuickNames == {1, 2, 3, 5, 6, 8, 10, 13, 20}
 ThoroughNames == DOMAIN AllNames
